@@ -59,7 +59,10 @@ class Gen:
         r = self.rng
         yield "watchdog 60s"
         yield "clock 1700000000000000000"
-        yield "c.new n=2 r=2 w=1 rq=1 parts=7 tsize=4096"
+        # every other episode the DMap under fire has a custom configuration section that sets a TTL and nothing else
+        # (no storage engine of its own): whatever creates the DMap - any of the mutated commands - runs through it
+        custom = " cdm=h cttl_ms=600000 cnoeng=1" if getattr(self, "ep", 0) % 2 == 1 else ""
+        yield "c.new n=2 r=2 w=1 rq=1 parts=7 tsize=4096%s" % custom
         for i in range(24):
             yield "c.put emb 0 h %s %s" % (hx(b"k%d" % i), hx(b"v%d" % i))
         cmds = (yield "c.commands 0").split(",")
